@@ -373,6 +373,10 @@ class Arr(object):
     def __getitem__(self, index):
         if isinstance(index, Arr) and index.size and all(isinstance(v, (bool, Unk)) for v in index.items()) \
                 and index.shape == self.shape:
+            if all(isinstance(v, bool) for v in index.items()):
+                # a concrete boolean mask selects (copies) the true positions in C order
+                picked = [v for v, m in zip(self.items(), index.items()) if m]
+                return Arr((len(picked),), picked, kind=self.kind)
             return MaskedSel(self, index)
         pos, shape = self._resolve(index)
         if shape == () and not _has_adv_or_slice(index):
@@ -390,7 +394,17 @@ class Arr(object):
             check_int_store(self, value)
         if isinstance(index, Arr) and index.size and all(isinstance(v, (bool, Unk)) for v in index.items()) \
                 and index.shape == self.shape:
-            vals = broadcast_to(value, self.shape).items() if isinstance(value, Arr) else [value] * self.size
+            n_true = sum(1 for m in index.items() if m is True)
+            if isinstance(value, Arr) and value.size > 1 and value.shape != self.shape and \
+                    all(isinstance(m, bool) for m in index.items()):
+                # numpy assigns the values to the true positions one after the other
+                if value.size != n_true:
+                    raise InterpValueError('NumPy boolean array indexing assignment cannot assign %d input values to the %d '
+                                           'output values where the mask is true' % (value.size, n_true))
+                it = iter(value.ravel().items())
+                vals = [next(it) if m else None for m in index.items()]
+            else:
+                vals = broadcast_to(value, self.shape).items() if isinstance(value, Arr) else [value] * self.size
             for p, m, v in zip(self.pos, index.items(), vals):
                 if m is True:
                     self.buf.data[p] = v
